@@ -153,6 +153,7 @@ func plExplore(t *testing.T, res *ev.Result, prop string, bound int, scs []*plSc
 	log.Info("warm up the logger outside the bubble")
 	schedQuiet()
 	sched.StartWatchdog(90 * time.Second)
+	VerifReleaseOutsidePools()
 	e := sched.NewExplorer(t, bound)
 	e.Horizon = 12 * time.Second
 	e.MaxSteps = 600
@@ -710,6 +711,7 @@ func TestVerifC04Drop(t *testing.T) {
 	log.Info("warm up the logger outside the bubble")
 	schedQuiet()
 	sched.StartWatchdog(90 * time.Second)
+	VerifReleaseOutsidePools()
 	e := sched.NewExplorer(t, bound)
 	e.Horizon = 12 * time.Second
 	e.MaxSteps = 600
